@@ -23,7 +23,16 @@ def check(rec, P, D, path, sh, op, only=None, extra_info=None):
     F = lp.feas(x)
     if rec.vacuity(P + '/eao_feasible', base + F) is None:
         return spec, R, lp
-    sub = refmap.to_ref(spec, R, lp, x)
+    try:
+        sub = refmap.to_ref(spec, R, lp, x)
+        xt, missing = refmap.to_eao(spec, R, lp)
+    except KeyError as e:
+        # the assembled problem lacks a variable the inputs call for (e.g. an order or an active step without variable)
+        nm = P + '/variables_by_meaning'
+        rec.obligations.append(dict(name=nm, verdict='sat', secs=0, form='Q3'))
+        rec.distinct.add(nm)
+        rec.candidates.append(dict(name=nm, env=common.generic_point(base, D.names, 0) or {}, info=dict(info, kind='keys', missing=str(e)), form='struct'))
+        return spec, R, lp
     goals = [(lab, z3.substitute(c, *sub), dict(dir='eao2ref', label=lab)) for lab, c in R.cons]
     obj_R = z3.substitute(R.obj, *sub)
     rec.twin(P + '/eao2ref', base + F, obj_R >= lp.val(x) + 1)
@@ -114,6 +123,12 @@ def observe(sh, op, env, rq):
     spec = refmap.spec_from_shape(sh)
     R = refmodel.build(spec)
     lp = lpsem.LP(op)
+    try:
+        refmap.to_ref(spec, R, lp, lp.mk_x())
+        refmap.to_eao(spec, R, lp)
+        o['keys_error'] = None
+    except KeyError as e:
+        o['keys_error'] = str(e)
     res = op.optimize()
     o['eao_opt'] = None if isinstance(res, str) else float(res.value)
     o['eao_status'] = res if isinstance(res, str) else 'optimal'
@@ -178,6 +193,8 @@ def judge(cand, ans, tol=1e-6):
             return True, 'feasibility differs: EAO %s, reference optimum %s' % (o.get('eao_status'), rv)
     if ev is not None and rv is not None and abs(ev - rv) > tol * scale:
         return True, 'optimal value EAO %.8g vs reference %.8g' % (ev, rv)
+    if info.get('kind') == 'keys':
+        return (o.get('keys_error') is not None), 'the assembled problem has no variable for %s, which the inputs call for' % o.get('keys_error')
     # the optima agree at this point; is the violated half itself real?
     if info.get('dir') == 'eao2ref':
         if o.get('x_residual', 1) > 1e-6:
